@@ -65,6 +65,13 @@ func DecodePicTimingHevcSEI(sd *SEIData, exPar HEVCPicTimingParams) (SEIMessage,
 				if pt.DuCommonCpbRemovalDelayFlag {
 					pt.DuCommonCpbRemovalDelayIncrementMinus1 = uint32(br.Read(int(exPar.DuCpbRemovalDelayIncrementLengthMinus1) + 1))
 				}
+				// every decoding unit takes at least one bit of the payload
+				nrUnits := uint64(pt.NumDecodingUnitsMinus1) + 1
+				if nrUnits > uint64(8*len(sd.Payload())) {
+					return nil, fmt.Errorf("num_decoding_units_minus1 %d too big", pt.NumDecodingUnitsMinus1)
+				}
+				pt.NumNalusInDuMinus1 = make([]uint32, nrUnits)
+				pt.DuCpbRemovalDelayIncrementMinus1 = make([]uint32, nrUnits)
 				for i := uint32(0); i <= pt.NumDecodingUnitsMinus1; i++ {
 					pt.NumNalusInDuMinus1[i] = uint32(br.ReadExpGolomb())
 					if !pt.DuCommonCpbRemovalDelayFlag && i < pt.NumDecodingUnitsMinus1 {
